@@ -65,6 +65,17 @@ PREREQ = {
 }
 
 
+DERIVED_ATTRS = {("Graph", "num_vertices"), ("Stabilizer", "num_qubits"), ("CircuitResult", "num_qubits")}
+
+
+def meta_cls(meta, path):
+    """class name of the library object at `path` inside a slot (from its recorded canonical value)"""
+    c = canon_at(meta.get("canon"), path) if meta.get("canon") is not None else None
+    if isinstance(c, dict) and c.get("t") == "obj":
+        return c["c"].split(":")[1].split(".")[-1]
+    return meta.get("tag") if not path else None
+
+
 def _touches(op, kind):
     """does this op read the stabilizer / the MUB table of its (n, connectivity)?"""
     if kind == "mub":
@@ -737,6 +748,14 @@ class Generator:
             return m, {}
         if kind == "nd":
             sh = hint
+            if path and path[-1] == ["a", "adjacency_matrix"]:
+                # a Graph's matrix stays a valid adjacency matrix: symmetric, zero diagonal
+                if not sh or len(sh) != 2 or sh[0] < 2:
+                    return None, None
+                if r.random() < 0.15:
+                    return "fill", {"v": 0}
+                i, j = r.sample(range(sh[0]), 2)
+                return "flip_sym", {"idx": [i, j]}
             if not sh or 0 in sh:
                 return "fill", {"v": 1}
             big = len(sh) == 2 and sh[0] >= 5 and sh[0] == sh[1]
@@ -747,8 +766,13 @@ class Generator:
             if m == "fill":
                 return m, {"v": r.randrange(2)}
             return m, {"i": 0, "j": sh[1] - 1}
-        # library object: assign one public attribute a value of the same type
+        # library object: assign one public attribute a value of the same type - but never a DERIVED attribute
+        # (one that the class keeps equal to a function of another: the caller would build an object no
+        # constructor or method can produce, e.g. a Graph whose num_vertices contradicts its matrix)
         if isinstance(hint, list) and hint:
+            hint = [h for h in hint if (meta_cls(meta, path), h[0]) not in DERIVED_ATTRS]
+            if not hint:
+                return None, None
             name, tname = r.choice(hint)
             junk = {"int": r.choice([0, 1, 3, 999]), "str": r.choice(["h0", "", "cz0,1 h1"]), "bool": True,
                     "NoneType": 0, "tuple": Lt.tup([0, 1]), "list": Lt.lst([]), "float": Lt.flt(2.5)}.get(tname)
